@@ -34,25 +34,27 @@ class GhostParentRef:
         self.not_inherited = not_inherited
 
 
-class GhostLayer:
+class GhostRaw:
+    """what the functions under contract read from a layer's raw data"""
 
     def __init__(self, name, kind):
         self.short_name = name
-        self.kind = kind
         self.variant_type = T[kind]
         self.parent_refs = []
         self.local = []
         self.comparam_refs = []
-        self.diag_layer_raw = self  # the functions under contract read parent_refs through diag_layer_raw
-        self.hierarchy_element_raw = self
 
-    def _get_parent_refs_sorted_by_priority(self, reverse=False):
-        return HierarchyElement._get_parent_refs_sorted_by_priority(self, reverse)
 
-    def _compute_available_objects(self, get_local_objects, get_not_inherited):
-        if self.kind == "SD":
-            return DiagLayer._compute_available_objects(self, get_local_objects, get_not_inherited)
-        return HierarchyElement._compute_available_objects(self, get_local_objects, get_not_inherited)
+def GhostLayer(name, kind):
+    """a real HierarchyElement (DiagLayer for shared data) object - the real methods are inherited - created without
+    running the constructor, carrying only the ghost raw data"""
+    cls = DiagLayer if kind == "SD" else HierarchyElement
+    L = cls.__new__(cls)
+    L.diag_layer_raw = GhostRaw(name, kind)
+    L.kind = kind
+    L.local = L.diag_layer_raw.local
+    L.parent_refs = L.diag_layer_raw.parent_refs
+    return L
 
 
 # shape: list of (layer name, kind, [parent names]); the first entry is the layer whose view is computed
@@ -111,7 +113,7 @@ def spec_view(layer, memo):
 
 
 def _local(dl):
-    return dl.local
+    return dl.diag_layer_raw.local
 
 
 def _not_inherited(pr):
@@ -166,3 +168,212 @@ def value_inheritance(shape):
             exp = spec_view(L, memo)
             H.check("C09:a-parents-own-view-is-unchanged",
                     sorted([id(o) for o in again]) == sorted([id(exp[k][0]) for k in exp]))
+
+
+# =============================================================================================================== C15
+import warnings  # noqa: E402
+
+from odxtools.comparam import Comparam  # noqa: E402
+from odxtools.comparaminstance import ComparamInstance  # noqa: E402
+from odxtools.complexcomparam import ComplexComparam  # noqa: E402
+from odxtools.nameditemlist import NamedItemList  # noqa: E402
+from odxtools.odxlink import DocType, OdxDocFragment, OdxLinkRef  # noqa: E402
+
+FR = [OdxDocFragment("cps", DocType.COMPARAM_SUBSET)]
+
+
+def mk_spec(name, default, cls=Comparam):
+    sp = cls.__new__(cls)
+    sp.short_name = name
+    sp.physical_default_value = default
+    return sp
+
+
+def mk_instance(spec, spec_id, value, protocol):
+    ci = ComparamInstance(value=value, description=None, protocol_snref=protocol, prot_stack_snref=None,
+                          spec_ref=OdxLinkRef(spec_id, FR))
+    ci._spec = spec
+    return ci
+
+
+CP_SHAPES = {
+    "bv-pr": SHAPES["bv-pr"],
+    "ev-bv-pr": SHAPES["ev-bv-pr"],
+    "diamond": SHAPES["diamond"],
+    "bv-fg+pr": [("bv", "BV", ["pr", "fg"]), ("fg", "FG", []), ("pr", "PR", [])],
+}
+
+
+@harness(props=["C15"], strength="B", family=lambda t, s: [{"shape": k} for k in CP_SHAPES],
+         bound="four hierarchy shapes of 2..3 layers; per layer the presence of a generic and of a protocol-specific "
+         "instance of one parameter and of an instance of a second parameter is symbolic",
+         functions=[HierarchyElement._compute_available_commmunication_parameters,
+                    HierarchyElement._get_parent_refs_sorted_by_priority], covers=["done"])
+def comparam_inheritance(shape):
+    """communication parameters of a layer = those of its parents overridden per (parameter, protocol) by closer layers:
+    whole-map postcondition keyed by (spec id, protocol qualifier)"""
+    layers = {}
+    for name, kind, parents in CP_SHAPES[shape]:
+        layers[name] = GhostLayer(name, kind)
+    spec_a, spec_b = mk_spec("CP_A", "0"), mk_spec("CP_B", "0")
+    defined = {}
+    for name, kind, parents in CP_SHAPES[shape]:
+        L = layers[name]
+        for (sid, spec, proto) in (("ID_A", spec_a, None), ("ID_A", spec_a, "UDS"), ("ID_B", spec_b, None)):
+            if H.bool(f"{name}_defines_{sid}_{proto}"):
+                ci = mk_instance(spec, sid, f"{name}:{sid}:{proto}", proto)
+                L.diag_layer_raw.comparam_refs.append(ci)
+                defined[(name, sid, proto)] = ci
+        for p in parents:
+            L.diag_layer_raw.parent_refs.append(GhostParentRef(layers[p], []))
+    target = layers[CP_SHAPES[shape][0][0]]
+
+    def spec(layer):
+        """declarative: own definition, else that of the highest-priority parent offering the key"""
+        out = {}
+        prs = sorted(layer.diag_layer_raw.parent_refs, key=lambda pr: PRIO[pr.layer.kind])
+        for pr in prs:  # ascending priority: later (higher) overrides
+            if pr.layer.kind == "SD":
+                continue
+            out.update(spec(pr.layer))
+        for ci in layer.diag_layer_raw.comparam_refs:
+            out[(ci.spec_ref.ref_id, ci.protocol_snref)] = ci
+        return out
+
+    got = target._compute_available_commmunication_parameters()
+    want = spec(target)
+    H.cover("done")
+    H.check("C15:one-instance-per-parameter-and-protocol", len(got) == len(want))
+    H.check("C15:closest-definition-wins-per-parameter-and-protocol",
+            all([want.get((ci.spec_ref.ref_id, ci.protocol_snref)) is ci for ci in got]))
+    H.check("C15:every-defined-key-is-present",
+            sorted([(ci.spec_ref.ref_id, str(ci.protocol_snref)) for ci in got]) ==
+            sorted([(k[0], str(k[1])) for k in want]))
+
+
+def _lookup_family(tier, seed):
+    orders = ["generic-first", "specific-first"]
+    return [{"order": o, "has_generic": g, "has_specific": s, "has_other": x, "query": q}
+            for o in orders for g in (False, True) for s in (False, True) for x in (False, True)
+            for q in (None, "UDS", "KWP")]
+
+
+@harness(props=["C15"], strength="E", family=_lookup_family, functions=[HierarchyElement.get_comparam],
+         covers=["found", "none"])
+def comparam_lookup(order, has_generic, has_specific, has_other, query):
+    """get_comparam(name, protocol=p): the instance qualified with protocol p if there is one, else the generic one,
+    else None; instances qualified with another protocol are never returned"""
+    L = GhostLayer("bv", "BV")
+    spec = mk_spec("CP_A", "0")
+    generic = mk_instance(spec, "ID_A", "generic", None) if has_generic else None
+    specific = mk_instance(spec, "ID_A", "specific", "UDS") if has_specific else None
+    other = mk_instance(spec, "ID_A", "other", "OBD") if has_other else None
+    decoy = mk_instance(mk_spec("CP_Z", "0"), "ID_Z", "decoy", None)
+    items = [generic, specific] if order == "generic-first" else [specific, generic]
+    L._comparam_refs = NamedItemList([x for x in [decoy, other] + items if x is not None])
+    with warnings.catch_warnings():
+        warnings.simplefilter("ignore")
+        got = L.get_comparam("CP_A", protocol=query)
+    if query is None:
+        H.check("C15:lookup-without-protocol-returns-some-instance-of-the-parameter",
+                (got is None) == (not (has_generic or has_specific or has_other)))
+        if got is not None:
+            H.check("C15:lookup-returns-an-instance-of-the-named-parameter", got.short_name == "CP_A")
+        H.cover("found" if got is not None else "none")
+        return
+    want = None
+    if query == "UDS" and has_specific:
+        want = specific
+    elif has_generic:
+        want = generic
+    H.cover("found" if want is not None else "none")
+    H.check("C15:protocol-specific-definition-before-the-generic-one", got is want)
+
+
+@harness(props=["C15"], strength="E",
+         family=lambda t, s: [{"own": o, "nsub": n, "given": g} for o in ("value", "empty", "none")
+                              for n in (1, 2, 3) for g in range(0, 4) if g <= n],
+         functions=[ComparamInstance.get_value, ComparamInstance.get_subvalue, ComparamInstance.short_name],
+         covers=["done"])
+def comparam_values(own, nsub, given):
+    """get_value = own value, else the PHYSICAL-DEFAULT-VALUE of the specification; get_subvalue(n) = own n-th value,
+    else the default of that sub-parameter - an omitted trailing value is not an IndexError"""
+    spec = mk_spec("CP_S", "default")
+    val = {"value": "own", "empty": "", "none": None}[own]
+    ci = mk_instance(spec, "ID_S", val, None)
+    H.check("C15:value-falls-back-to-the-specification-default",
+            ci.get_value() == ("own" if own == "value" else "default"))
+    H.check("C15:short-name-is-that-of-the-specification", ci.short_name == "CP_S")
+    subs = [mk_spec(f"SUB{i}", f"subdefault{i}") for i in range(nsub)]
+    cspec = mk_spec("CP_C", None, ComplexComparam)
+    cspec.subparams = NamedItemList(subs)
+    values = [f"own{i}" for i in range(given)]
+    cci = mk_instance(cspec, "ID_C", values, None)
+    for i in range(nsub):
+        try:
+            with warnings.catch_warnings():
+                warnings.simplefilter("ignore")
+                r = cci.get_subvalue(f"SUB{i}")
+        except IndexError:
+            H.check("C15:omitted-trailing-sub-value-falls-back-to-the-default", False)
+            return
+        H.check("C15:sub-value-is-own-value-else-sub-parameter-default",
+                r == (f"own{i}" if i < given else f"subdefault{i}"))
+    with warnings.catch_warnings():
+        warnings.simplefilter("ignore")
+        H.check("C15:unknown-sub-parameter-yields-none", cci.get_subvalue("NOPE") is None)
+    H.cover("done")
+
+
+ACCESSORS = [
+    # (method, comparam, sub-parameter or None, scale)
+    ("get_can_receive_id", "CP_UniqueRespIdTable", "CP_CanPhysReqId", 1),
+    ("get_can_send_id", "CP_UniqueRespIdTable", "CP_CanRespUSDTId", 1),
+    ("get_doip_logical_ecu_address", "CP_UniqueRespIdTable", "CP_DoIPLogicalEcuAddress", 1),
+    ("get_can_func_req_id", "CP_CanFuncReqId", None, 1),
+    ("get_can_baudrate", "CP_Baudrate", None, 1),
+    ("get_doip_logical_gateway_address", "CP_DoIPLogicalGatewayAddress", None, 1),
+    ("get_doip_logical_tester_address", "CP_DoIPLogicalTesterAddress", None, 1),
+    ("get_doip_logical_functional_address", "CP_DoIPLogicalFunctionalAddress", None, 1),
+    ("get_doip_routing_activation_timeout", "CP_DoIPRoutingActivationTimeout", None, 1000000),
+    ("get_tester_present_time", "CP_TesterPresentTime", None, 1000000),
+]
+
+
+@harness(props=["C15"], strength="E",
+         family=lambda t, s: [{"acc": i, "state": st} for i in range(len(ACCESSORS))
+                              for st in ("own", "default", "absent")],
+         functions=[HierarchyElement.get_can_receive_id, HierarchyElement.get_can_send_id,
+                    HierarchyElement.get_can_func_req_id, HierarchyElement.get_can_baudrate,
+                    HierarchyElement.get_doip_logical_ecu_address, HierarchyElement.get_doip_logical_gateway_address,
+                    HierarchyElement.get_doip_logical_tester_address,
+                    HierarchyElement.get_doip_logical_functional_address,
+                    HierarchyElement.get_doip_routing_activation_timeout, HierarchyElement.get_comparam],
+         covers=["done"], crosscheck=False)
+def typed_accessors(acc, state):
+    """each typed accessor returns exactly the numeric content of the comparam (sub-)value the ISO tables name, the
+    specification default when the value is omitted, None when the parameter is absent"""
+    method, cpname, sub, scale = ACCESSORS[acc]
+    L = GhostLayer("bv", "BV")
+    number = H.pick("number", [0, 1, 2015, 500000])
+    if sub is None:
+        spec = mk_spec(cpname, str(number) if state == "default" else "999")
+        ci = mk_instance(spec, "ID", str(number) if state == "own" else "", None)
+    else:
+        subs = [mk_spec("CP_Other", "5"), mk_spec(sub, str(number) if state == "default" else "999")]
+        spec = mk_spec(cpname, None, ComplexComparam)
+        spec.subparams = NamedItemList(subs)
+        ci = mk_instance(spec, "ID", ["7", str(number)] if state == "own" else ["7"], None)
+    L._comparam_refs = NamedItemList([] if state == "absent" else [ci])
+    if not hasattr(HierarchyElement, method):
+        return
+    try:
+        got = getattr(L, method)()
+    except Exception:
+        H.check("C15:typed-accessor-returns-without-error", False)
+        return
+    H.cover("done")
+    if state == "absent":
+        H.check("C15:typed-accessor-of-an-absent-parameter-is-none", got is None)
+    else:
+        H.check("C15:typed-accessor-returns-the-numeric-content", got == number / scale if scale != 1 else got == number)
